@@ -243,6 +243,12 @@ theorem createBarcodes_laws_le8 (n len : Nat) (h1 : 1 ≤ n) (h8 : n ≤ 8) (hl 
   obtain ⟨bs, hbs⟩ := createBarcodes_laws bans filters hdb hc hl
   exact ⟨db, bs, hdb, checkWith_sound 0 n db hc, hbs⟩
 
+/-- the executable twin the correspondence driver runs (it keeps the suffix of `db` it has reached
+instead of walking `db` from its head for every slot) returns the model's value on every input -/
+theorem barcodesOnFast_eq (db : Str) (len n : Nat) (bans : List Str) (filters : List (Str → Bool)) :
+    barcodesOnFast db len n bans filters = barcodesOn db len n bans filters :=
+  outerLoopFast_eq db len _ bans filters _ 0 db 0 rfl
+
 /-- `CreateBarcodes` is the call with no bans and no filters -/
 theorem createBarcodes_eq (len n : Nat) : createBarcodes len n = createBarcodesWith len n [] [] := rfl
 
